@@ -1,95 +1,10 @@
-(* Facts about the 52 card words: the spec deck, the filter, the accessors (finite sweeps over the
-   13 x 4 rank/suit pairs, lifted to "for all r < 13, s < 4"). *)
+(* All accessors at once (used by C10), and a re-export of the finer-grained fact files. Files that need
+   only part of this should import the part, so that an unrelated change does not break them. *)
 From Coq Require Import String.
 From CKC Require Import Base.Prelude Base.Reflect Spec.Layout Model.Card.
 From CKC Require Import Gen.Consts Gen.Enums Gen.Maps Gen.Scan Gen.Decks.
+From CKC Require Export Proofs.CardBase Proofs.FilterReal Proofs.FilterExact.
 Open Scope N_scope.
-
-(* ---- the spec deck ---------------------------------------------------------------------- *)
-Lemma SPEC_DECK_length : length SPEC_DECK = 52%nat.
-Proof. reflexivity. Qed.
-
-Lemma SPEC_DECK_NoDup : NoDup SPEC_DECK.
-Proof. apply nodupb_NoDup. vm_compute. reflexivity. Qed.
-
-Lemma layout_in_deck r s : r < 13 -> s < 4 -> In (layout r s) SPEC_DECK.
-Proof.
-  intros Hr Hs. apply memN_In.
-  exact (forallb_N_range2 (fun r s => memN (layout r s) SPEC_DECK) 13 4
-           ltac:(vm_compute; reflexivity) r s Hr Hs).
-Qed.
-
-Lemma SPEC_DECK_RS_bounds r s : In (r, s) SPEC_DECK_RS -> r < 13 /\ s < 4.
-Proof.
-  intros H.
-  assert (Hall : forallb (fun p => (fst p <? 13) && (snd p <? 4)) SPEC_DECK_RS = true)
-    by (vm_compute; reflexivity).
-  rewrite forallb_forall in Hall. specialize (Hall _ H). cbn [fst snd] in Hall.
-  apply andb_true_iff in Hall. rewrite !N.ltb_lt in Hall. exact Hall.
-Qed.
-
-Lemma RealCard_iff w : RealCard w <-> In w SPEC_DECK.
-Proof.
-  split.
-  - intros (r & s & Hr & Hs & ->). now apply layout_in_deck.
-  - unfold SPEC_DECK. rewrite in_map_iff. intros [[r s] [<- Hin]].
-    exists r, s. destruct (SPEC_DECK_RS_bounds _ _ Hin). now repeat split.
-Qed.
-
-Lemma real_cardb_spec w : real_cardb w = true <-> RealCard w.
-Proof. unfold real_cardb. rewrite memN_In. symmetry. apply RealCard_iff. Qed.
-
-(* lifting a boolean sweep over the 13 x 4 pairs *)
-Lemma sweep_rs (P : N -> N -> bool) :
-  forallb (fun r => forallb (P r) (N_range 4)) (N_range 13) = true ->
-  forall r s, r < 13 -> s < 4 -> P r s = true.
-Proof. apply forallb_N_range2. Qed.
-
-(* ---- the filter (complete 2^32 graph) --------------------------------------------------- *)
-Lemma filter_spec w : filter w = if real_cardb w then w else 0.
-Proof.
-  unfold filter, real_cardb.
-  assert (Hg : FILTER_NONBLANK = map (fun c => (c, c)) (map fst FILTER_NONBLANK))
-    by (vm_compute; reflexivity).
-  rewrite Hg, assoc_diag.
-  rewrite (memN_ext (map fst FILTER_NONBLANK) SPEC_DECK
-             ltac:(vm_compute; reflexivity) ltac:(vm_compute; reflexivity) w).
-  reflexivity.
-Qed.
-
-Lemma filter_real w : RealCard w -> filter w = w.
-Proof. intros H. rewrite filter_spec. apply real_cardb_spec in H. now rewrite H. Qed.
-
-Lemma filter_not_real w : ~ RealCard w -> filter w = 0.
-Proof.
-  intros H. rewrite filter_spec. destruct (real_cardb w) eqn:E; [|reflexivity].
-  apply real_cardb_spec in E. contradiction.
-Qed.
-
-Lemma layout_nonzero r s : r < 13 -> s < 4 -> layout r s <> 0.
-Proof.
-  intros Hr Hs.
-  pose proof (sweep_rs (fun r s => negb (layout r s =? 0)) ltac:(vm_compute; reflexivity) r s Hr Hs) as H.
-  apply negb_true_iff, N.eqb_neq in H. exact H.
-Qed.
-
-Lemma RealCard_nonzero w : RealCard w -> w <> 0.
-Proof. intros (r & s & Hr & Hs & ->). now apply layout_nonzero. Qed.
-
-Lemma filter_zero_iff w : filter w = 0 <-> ~ RealCard w.
-Proof.
-  split.
-  - intros H Hr. rewrite (filter_real _ Hr) in H. exact (RealCard_nonzero _ Hr H).
-  - apply filter_not_real.
-Qed.
-
-(* ---- variants and their spec meaning ---------------------------------------------------- *)
-Definition spec_rank_of_variant (ri : N) : option N :=
-  index_of_string (nth (N.to_nat ri) CardRank_NAMES EmptyString) RANK_ENUM_NAMES.
-Definition spec_suit_of_variant (si : N) : option N :=
-  index_of_string (nth (N.to_nat si) CardSuit_NAMES EmptyString) SUIT_NAMES.
-Definition rank_variant (r : N) : N := variant CardRank_NAMES (nth (N.to_nat r) RANK_ENUM_NAMES EmptyString).
-Definition suit_variant (s : N) : N := variant CardSuit_NAMES (nth (N.to_nat s) SUIT_NAMES EmptyString).
 
 (* ---- accessors on the 52 cards ---------------------------------------------------------- *)
 Definition acc_ok (r s : N) : bool :=
